@@ -113,7 +113,10 @@ fn class_of(c: &Case) -> String {
     format!("{}/{}/{}/{}", c.region, if c.pgoff == 0 { "aligned" } else { "unaligned" }, l, f)
 }
 
+pub static JUDGE_RELEASE: std::sync::atomic::AtomicBool = std::sync::atomic::AtomicBool::new(false);
+
 pub fn run(ctx: &Ctx) {
+    JUDGE_RELEASE.store(ctx.get_u("judge_release", 0) == 1, std::sync::atomic::Ordering::SeqCst);
     let cases = gen(ctx);
     let floor = hint_floor();
     let lowest = lowest_mappable();
@@ -339,6 +342,10 @@ fn one(idx: u64, c: &Case, floor: usize, lowest: usize, attempts: &mut Vec<u64>,
             }
             if !new_lib_mappings(&led0).is_empty() {
                 d = d.b("note_mapping_left_after_drop", true);
+                if JUDGE_RELEASE.load(std::sync::atomic::Ordering::SeqCst) {
+                    // run on behalf of C12 (shaped neighbourhoods, trampolines at the extreme offsets)
+                    return (Verdict::Violated, "c12:trampoline-left-mapped-after-the-injector-went-away".into(), d);
+                }
             }
             (Verdict::Held, String::new(), d)
         }
